@@ -22,6 +22,7 @@ META = {
 }
 META["explanation"] += " R19.3 also requires all construction sites of one subscriber-state type to store the same number of owned references (a clone that owns fewer, e.g. a lazily boxed lock future, makes the counts depend on the handles' history)."
 META["explanation"] += ' R19.4 also sees SharedReadLock::downgrade; R19.7 also sees replacement through Clone::clone_from / mem::replace / swap / take.'
+META["explanation"] += ' R19.8 ManuallyDrop ledger: every owned share of the owner counter made in a function (clone of the field, ManuallyDrop::new of a fresh / upgraded Arc) is moved into the counter field of a constructed SharedObservable or released explicitly; a value that only gets borrowed leaks one count per call. R19.9 type ledger: no type other than the counted handles has a field that owns a state reference (Arc / SharedReadLock / Owned*Guard), and the guard types chosen by the Lock impls borrow.'
 
 SH = "shared::SharedObservable<"
 
@@ -38,6 +39,8 @@ def run(ctx):
     r19_45(ctx)
     r19_6(ctx, counter)
     r19_7(ctx, counter)
+    r19_8(ctx, counter)
+    r19_9(ctx)
 
 
 def r19_1(ctx, counter):
@@ -286,3 +289,116 @@ def r19_7(ctx, counter):
                                      root.path, x[2], (t.get("callee") or "").split("::")[-1], " (a ManuallyDrop: the old Arc is not even dropped)" if x[2] == counter else ""))
     if not n:
         ctx.holds("R19.7", None, "handle-fields-written-only-at-construction", None, "no assignment to `state` / `%s` of an existing SharedObservable or WeakObservable" % counter)
+
+
+
+def _op_local(op, whole=False):
+    if not isinstance(op, dict) or op.get("k") not in ("move", "copy"):
+        return None
+    pl = op["place"]
+    if whole and pl["proj"]:
+        return None
+    return pl["l"]
+
+
+def r19_8(ctx, counter):
+    """ManuallyDrop ledger: an owned reference of the owner counter that is wrapped in ManuallyDrop has no drop glue; every such value
+    made in a function (clone of the field, ManuallyDrop::new of an upgraded / fresh Arc) must be moved into the counter field of a
+    constructed SharedObservable or be released explicitly, else that share is never given back."""
+    F = ctx.facts
+    a = F.adt(EY, "shared::SharedObservable")
+    fty = [fd["ty"] for fd in a["variants"][0]["fields"] if fd["name"] == counter][0]
+    if "ManuallyDrop" not in fty:
+        ctx.holds("R19.8", None, "owner-share-ledger", None, "the owner counter is a plain field: drop glue releases every temporary share")
+        return
+    n = 0
+    for f in F.find(crate=EY):
+        if not f.built or f.kind == "closure" or root_fn(F, f) is not f:
+            continue
+        if f.raw.get("impl_trait") == "std::ops::Drop":
+            continue
+        b = inl(F, f, desugar=True, tag="r19.8") or f.built
+        starts = [(blk, t) for blk, t in b.calls() if t.get("dest") and not t["dest"]["proj"] and b.locals[t["dest"]["l"]]["ty"] == fty]
+        for blk, t in starts:
+            n += 1
+            S = {t["dest"]["l"]}
+            stored = released = escaped = False
+            changed = True
+            while changed:
+                changed = False
+                for loc, s_ in b.iter_stmts():
+                    if s_["k"] != "assign":
+                        continue
+                    rv = s_["rv"]
+                    ops = [rv.get("op")] if rv["k"] in ("use", "cast") else rv.get("ops", []) if rv["k"] == "agg" else []
+                    if not any(_op_local(o) in S for o in ops):
+                        continue
+                    if rv["k"] == "agg" and rv.get("adt") == "shared::SharedObservable":
+                        i = rv["fields"].index(counter)
+                        if _op_local(rv["ops"][i]) in S:
+                            stored = True
+                        continue
+                    dl = s_["place"]["l"]
+                    if dl == 0:
+                        escaped = True
+                    if dl not in S:
+                        S.add(dl)
+                        changed = True
+                for blk2, t2 in b.calls():
+                    if not any(_op_local(o) in S for o in t2.get("args", [])):
+                        continue
+                    if re.search(r"ManuallyDrop::<.*>::(drop|take|into_inner)$", t2.get("callee") or ""):
+                        released = True
+                    else:
+                        escaped = True
+            root = f
+            what = (t.get("callee") or "").split("::")[-1]
+            where = b.line_at((blk, 10 ** 6))
+            if stored or released:
+                ctx.holds("R19.8", root, "owner-share-ledger:%s" % what, where, "the ManuallyDrop'd share made by `%s` is %s" % (what, "moved into the new handle's `%s`" % counter if stored else "released explicitly"))
+            elif escaped:
+                ctx.undecided("R19.8", root, "owner-share-ledger:%s" % what, where, "the ManuallyDrop'd share made by `%s` leaves `%s` (returned or passed on)" % (what, f.path))
+            else:
+                ctx.violated("R19.8", root, "owner-share-ledger:%s" % what, where,
+                             "`%s` makes an owned share of the owner counter (`%s`, a ManuallyDrop so no drop glue) that is neither stored in a new handle nor released: every call leaks one count - observable_count grows for ever, subscriber_count shrinks, and the observable is never closed" % (f.path, what))
+    ctx.floor("R19.8", n, 3)
+
+
+
+OWNING = r"(?<!\w)(Arc<|SharedReadLock<|Owned\w*Guard<)"
+COUNTED = ("shared::SharedObservable", "subscriber::Subscriber", "subscriber::async_lock::AsyncSubscriberState", "unique::Observable")
+
+
+def r19_9(ctx):
+    """type ledger: a strong reference to the shared state may be owned only by the counted handle types. A guard / helper type
+    handed to users that owns one (e.g. an `Owned*Guard` as a Lock impl's guard type) is counted by strong_count while it lives."""
+    F = ctx.facts
+    n = 0
+    for a in [x for x in F.adts.values() if x.get("crate") == EY]:
+        if a["path"] in COUNTED or a["path"].startswith("state::"):
+            continue
+        for v in a["variants"]:
+            for fd in v["fields"]:
+                n += 1
+                m = re.search(OWNING, fd["ty"])
+                where = "%s:%s" % (a["span"]["file"], a["span"]["line"])
+                if m and not fd["ty"].startswith("&"):
+                    ctx.violated("R19.9", "type:" + a["path"], "owns-state-reference:%s" % fd["name"], where,
+                                 "`%s.%s: %s` owns a strong reference although `%s` is not a counted handle: strong_count / subscriber_count include every live value of this type" % (a["path"], fd["name"], fd["ty"], a["path"]))
+                else:
+                    ctx.holds("R19.9", "type:" + a["path"], "owns-state-reference:%s" % fd["name"], where, "`%s` owns no state reference" % fd["ty"])
+    for im in [x for x in F.impls if x.get("crate") == EY]:
+        if im.get("trait") != "lock::Lock":
+            continue
+        for at in im.get("assoc_types", []):
+            if not at["name"].endswith("Guard"):
+                continue
+            n += 1
+            where = "%s:%s" % (im["span"]["file"], im["span"]["line"])
+            m = re.search(OWNING, at["ty"])
+            if m:
+                ctx.violated("R19.9", "impl:" + im["self_ty"], "guard-type-borrows:%s" % at["name"], where,
+                             "`%s::%s = %s` is a guard that owns a strong reference to the state: every live read/write guard is counted by strong_count and by subscriber_count" % (im["self_ty"], at["name"], at["ty"]))
+            else:
+                ctx.holds("R19.9", "impl:" + im["self_ty"], "guard-type-borrows:%s" % at["name"], where, "`%s` borrows the lock" % at["ty"])
+    ctx.floor("R19.9", n, 6)
